@@ -95,8 +95,11 @@ var jsStrReplacementTable = []string{
 	'\r': `\r`,
 	// Encode HTML specials as hex so the output can be embedded
 	// in HTML attributes without further encoding.
-	'"':  `\u0022`,
-	'`':  `\u0060`,
+	'"': `\u0022`,
+	'`': `\u0060`,
+	// Values are also placed inside template literals (backtick strings),
+	// where ${ starts an interpolation.
+	'$':  `\u0024`,
 	'&':  `\u0026`,
 	'\'': `\u0027`,
 	'+':  `\u002b`,
